@@ -21,6 +21,9 @@ pub enum Signal {
     FinishHeld,
     /// finish() issued while nothing reaches the reader, cancelled, then the reader stops with c: the re-issued finish() reports stopped(c)
     FinishCancelStop(u64),
+    /// finish() pending because nothing reaches the reader, then the writer's own endpoint closes the connection: finish() must
+    /// not report success (nothing was acknowledged)
+    FinishLocalClose,
     Finish,
 }
 
@@ -45,6 +48,7 @@ impl Sc {
             Signal::Stop(c) => json!(["stop", c]),
             Signal::FinishHeld => json!(["finish_held", 0]),
             Signal::FinishCancelStop(c) => json!(["finish_cancel_stop", c]),
+            Signal::FinishLocalClose => json!(["finish_local_close", 0]),
             Signal::Finish => json!(["finish", 0]),
         };
         json!({"topo": self.topo, "raw_is_client": self.raw_is_client, "client_opens": self.client_opens, "bidi": self.bidi, "reverse": self.reverse, "signal": sg, "phase": self.phase, "k": self.k})
@@ -62,6 +66,7 @@ impl Sc {
                 "stop" => Signal::Stop(c),
                 "finish_held" => Signal::FinishHeld,
                 "finish_cancel_stop" => Signal::FinishCancelStop(c),
+                "finish_local_close" => Signal::FinishLocalClose,
                 _ => Signal::Finish,
             },
             phase: v["phase"].as_u64().unwrap() as u8,
@@ -179,6 +184,22 @@ async fn wt_wt(sc: &Sc) -> Result<String, String> {
                 other => return Err(format!("stop({c}): finish = {other:?}")),
             }
             Ok(format!("stop({c}) seen"))
+        }
+        Signal::FinishLocalClose => {
+            world.net.set_policy(waddr, raddr, Policy::Hold);
+            let wconn = if writer_is_client { p.cconn.clone() } else { p.sconn.clone() };
+            let closer = async {
+                settle_ms(300).await;
+                wconn.close(VarInt::from_u32(7), b"bye");
+            };
+            let (res, ()) = tokio::join!(async { within(3_000, w.finish()).await }, closer);
+            world.net.release();
+            match res {
+                Some(Err(StreamWriteError::NotConnected)) => Ok("finish pending, local close: NotConnected".into()),
+                Some(Ok(())) => Err("finish() reported success although the connection was closed locally before anything could be acknowledged".into()),
+                Some(Err(other)) => Err(format!("finish() pending, then local close: finish() = {other:?}")),
+                None => Err("finish() hangs after the local close".into()),
+            }
         }
         Signal::FinishCancelStop(c) => {
             // nothing the writer sends reaches the reader: no acknowledgement of the FIN can exist
@@ -452,6 +473,9 @@ pub fn scenarios(tier: Tier) -> Vec<Sc> {
                     out.push(Sc { topo: 0, raw_is_client: true, client_opens: co, bidi: bi, reverse: rev, signal: Signal::FinishCancelStop(c), phase, k: 700 });
                 }
             }
+            if phase < 3 {
+                out.push(Sc { topo: 0, raw_is_client: true, client_opens: co, bidi: bi, reverse: rev, signal: Signal::FinishLocalClose, phase, k: 700 });
+            }
             for sig in [Signal::Finish, Signal::FinishHeld] {
                 if phase == 3 {
                     continue;
@@ -497,7 +521,7 @@ pub fn run_check(args: &Args) -> i32 {
     let rep = Report::new(
         args,
         "exploration",
-        "scenario = topology (wt<->wt; raw peer as writer; raw peer as reader; both roles) x six data directions x signal (reset(c) / stop(c) / finish / finish with acknowledgements withheld (every cancelled-and-reissued finish() stays pending) then released / finish cancelled while nothing reaches the reader, then stop(c), then finish again) x phase (before any byte; after k bytes written and read; after k bytes written and unread; after finish) x code (10 values across every varint length incl. 2^62-1) x k; all distinct by construction and non-trivial",
+        "scenario = topology (wt<->wt; raw peer as writer; raw peer as reader; both roles) x six data directions x signal (reset(c) / stop(c) / finish / finish with acknowledgements withheld (every cancelled-and-reissued finish() stays pending) then released / finish cancelled while nothing reaches the reader, then stop(c), then finish again / finish pending, then the writer's own endpoint closes the connection) x phase (before any byte; after k bytes written and read; after k bytes written and unread; after finish) x code (10 values across every varint length incl. 2^62-1) x k; all distinct by construction and non-trivial",
     );
     rep.assume("for a signal raised after finish completed, both 'complete delivery' and the signal are accepted (inherent race)");
     let scs = scenarios(args.tier);
